@@ -16,7 +16,8 @@ VALID = ['B1', 'B2', 'N1', 'S', 'V', 'P', 'NB', 'x1', 'x2', 'x3', 'y1',
 INVALID = ['!dupsym', '!dupsym2', '!empty', '!nonstr', '!S2', '!V2',
            '!B1again', '!othertype', '!otherdim', '!wrongbase',
            '!wrongcount', '!B3dupref', '!derivebase', '!NB2', '!P2',
-           '!dupderive', '!dupterm', '!Pdupsym', '!Sdupsym']
+           '!dupderive', '!dupterm', '!Pdupsym', '!Sdupsym', '!Pnum',
+           '!Punits']
 QUICK_INVALID = ['!dupsym', '!S2', '!othertype', '!otherdim', '!wrongbase',
                  '!empty', '!dupderive', '!dupterm']
 
@@ -93,6 +94,8 @@ def run(tier, seed):
     plans.append((['B\u2126', 'k\u2126', 'S\u2126', 'k\u2126\u00b2',
                    '!dup\u2126', '?query'], 6 if tier == 'thorough' else 5,
                   [ROOTS[0]]))
+    plans.append((['L1', 'L2', 'LL', '!LL2', 'B1', 'B1c', 'xc1', 'x1',
+                   '?query'], 5 if tier == 'thorough' else 4, [ROOTS[0]]))
     for names, depth, roots in plans:
         for root in roots:
             n, nfp = explore(names, depth, total, root=root)
